@@ -12,5 +12,5 @@ for l in sys.stdin:
     if e.get("Action")=="pass" and e.get("Test"): ok.add(e["Package"]+"::"+e["Test"])
 missing=sorted(base-ok)
 print("baseline tests passing: %d/%d"%(len(base&ok),len(base)))
-for m in missing: print("  NOT PASSING:",m)
+for m in missing[:12]: print("  NOT PASSING:",m)
 '
